@@ -16,7 +16,7 @@ CLASSES = [
 
 LOGIC = Logic(
     funcs={"WIfExited": (["int"], "bool"), "WIfSignaled": (["int"], "bool"), "WExitStatus": (["int"], "int"), "WTermSig": (["int"], "int")},
-    globals={"g_appends": "int", "g_writes": "int", "g_reads": "int", "g_pops": "int", "g_exited": "int", "g_drained": "bool", "g_handler_self": "SigchldHelper",
+    globals={"g_appends": "int", "g_writes": "int", "g_reads": "int", "g_pops": "int", "g_exited": "int", "g_drained": "bool", "g_handler_self": "SigchldHelper", "g_byte_known": "bool",
              "ext_os_WNOHANG": "int"},
     macros={"pipe_inv(h)": "g_pops <= g_reads and g_reads <= g_writes and g_writes <= g_appends and seq_len(h._returncodes) == g_appends - g_pops"},
 )
@@ -27,10 +27,23 @@ RELY = (["list@self._returncodes", "g_appends", "g_writes"],
          "forall(k, 'int', implies(0 <= k and k < old(seq_len(self._returncodes)), select(self._returncodes, k) == old(select(self._returncodes, k))))"])
 
 CONTRACTS = [
-    Contract("ext::os.read", params={"fd": "int", "n": "int"}, returns="bytes", modifies=["g_reads", "g_appends", "g_writes", "list@g_handler_self._returncodes"],
-             requires=["n == 1"],
-             ensures=["g_reads == old(g_reads) + 1", "g_reads <= g_writes",
-                      # while blocked in read() the handler may run
+    Contract("ext::select.select", params={"rlist": "any", "wlist": "any", "xlist": "any", "timeout": "float"}, returns="Tuple[Seq[int],Seq[int],Seq[int]]",
+             modifies=["g_byte_known", "g_appends", "g_writes", "list@g_handler_self._returncodes"],
+             ensures=[  # readable <=> a byte is in the self-pipe; it stays there: the main thread is the only reader
+                      "g_byte_known == (seq_len(result[0]) > 0)", "implies(g_byte_known, g_reads < g_writes)",
+                      # while blocked (for at most `timeout`) and on return the handler may run
+                      "g_appends >= old(g_appends) and g_writes - old(g_writes) == g_appends - old(g_appends)",
+                      "seq_len(g_handler_self._returncodes) == old(seq_len(g_handler_self._returncodes)) + (g_appends - old(g_appends))"],
+             trusted_reason="A-OS: select() with a time-out on the self-pipe reports it readable iff a byte is buffered; returns after at most `timeout` seconds, so pending Python-level signal handlers get to run"),
+    Contract("ext::os.read", params={"fd": "int", "n": "int"}, returns="bytes", modifies=["g_reads", "g_appends", "g_writes", "g_byte_known", "list@g_handler_self._returncodes"],
+             requires=["n == 1",
+                       # The byte is written by the PYTHON-level SIGCHLD handler, which only runs between bytecodes of the main
+                       # thread: a SIGCHLD delivered after the last check and before read() blocks would never be handled while
+                       # read() sleeps (lost wake-up: `cond run` hangs with a zombie child).  A read of the self-pipe is therefore
+                       # allowed only when a byte is known to be there.
+                       C("the_self_pipe_is_only_read_when_a_byte_is_known_to_be_there", "g_byte_known", "C09")],
+             ensures=["g_reads == old(g_reads) + 1", "g_reads <= g_writes", "not g_byte_known",
+                      # while in read() the handler may run
                       "g_appends >= old(g_appends) and g_writes - old(g_writes) == g_appends - old(g_appends)",
                       "seq_len(g_handler_self._returncodes) == old(seq_len(g_handler_self._returncodes)) + (g_appends - old(g_appends))"],
              trusted_reason="A-OS: a blocking read of 1 byte returns only after a byte was written (reads <= writes); the handler may run meanwhile"),
@@ -68,8 +81,12 @@ CONTRACTS = [
     Contract(F + "::SigchldHelper.wait", returns="Tuple[int,int]", props=["C09"],
              requires=[C("counters", "pipe_inv(self) and g_pops == g_reads"), C("tracking", "self._read_pipe is not None and g_handler_self == self")],
              interference=RELY,
-             modifies=["list@self._returncodes", "g_appends", "g_writes", "g_pops", "g_reads"],
-             ensures=[C("counters", "pipe_inv(self) and g_pops == g_reads"), C("one_completion_consumed", "g_pops == old(g_pops) + 1")]),
+             modifies=["list@self._returncodes", "g_appends", "g_writes", "g_pops", "g_reads", "g_byte_known"],
+             ensures=[C("counters", "pipe_inv(self) and g_pops == g_reads"), C("one_completion_consumed", "g_pops == old(g_pops) + 1")],
+             loops={0: Loop(header="while len(select.select([self._read_pipe], [], [], 0.05)[0]) == 0:",
+                            modifies=["list@self._returncodes", "g_appends", "g_writes", "g_byte_known"],
+                            invariant=[C("counters", "pipe_inv(self) and g_pops == g_reads"),
+                                       C("no_completion_consumed_yet", "g_pops == at_loop(g_pops) and g_reads == at_loop(g_reads)")])}),
 
     Contract(F + "::SigchldHelper._handler", params={"sig": "any", "frame": "any"}, props=["C09", "C03", "C06", "C01"],
              locals={"pid": "int", "status": "int"},
